@@ -75,6 +75,71 @@ def _uses_of(fn, local, after=None):
     return out
 
 
+def _events(fn, bi, local):
+    """ordered events on `local` in block bi: 'use' (read / moved out / examined), 'def' (whole-place assignment, call destination),
+    'kill' (drop terminator)"""
+    ev = []
+    b = fn.blocks[bi]
+
+    def reads(op):
+        return op["k"] in ("copy", "move") and op["place"]["l"] == local
+    for s in b["stmts"]:
+        if s["k"] != "assign":
+            continue
+        rv = s["rv"]
+        k = rv["k"]
+        used = (k in ("use", "cast") and reads(rv["op"])) or (k in ("ref", "rawptr", "discr", "len") and rv.get("place", {}).get("l") == local) or \
+            (k == "agg" and any(reads(o) for o in rv["ops"])) or (k == "binop" and (reads(rv["a"]) or reads(rv["b"]))) or (k == "unop" and reads(rv["a"]))
+        if used:
+            ev.append("use")
+        if s["place"]["l"] == local:
+            ev.append("def" if not s["place"]["p"] else "use")
+    t = b["term"]
+    if t:
+        if t["k"] == "call":
+            if any(reads(a) for a in t["args"]):
+                ev.append("use")
+            if t["dest"]["l"] == local and not t["dest"]["p"]:
+                ev.append("def")
+        elif t["k"] == "switch" and reads(t["discr"]):
+            ev.append("use")
+        elif t["k"] == "drop" and t["place"]["l"] == local and not t["place"]["p"]:
+            ev.append("kill")
+        elif t["k"] == "return" and local == 0:
+            ev.append("use")
+    return ev
+
+
+def overwritten_results(fn, chain_locals, def_sites):
+    """I/O results that are replaced or destroyed before anything looked at them: from each site where a local of the chain receives
+    the call's result, follow the CFG; a path that meets another definition of that local, or its drop, before any use is a result
+    nobody examined (`r = write(a); r = write(b); r?` -- or the same across the back edge of a loop).  -> [(local, bb_def, bb_lost, how)]"""
+    out = []
+    for l, bdef in def_sites:
+        ev = _events(fn, bdef, l)
+        # position after the (last) def in the defining block
+        idx = len(ev) - 1 - ev[::-1].index("def") if "def" in ev else -1
+        rest = ev[idx + 1:]
+        if rest:
+            if rest[0] != "use":
+                out.append((l, bdef, bdef, rest[0]))
+            continue
+        seen = set()
+        work = [s_ for s_ in fn.succ(bdef) if not fn.blocks[s_]["cleanup"]]
+        while work:
+            b = work.pop()
+            if b in seen:
+                continue
+            seen.add(b)
+            e = _events(fn, b, l)
+            if e:
+                if e[0] != "use":
+                    out.append((l, bdef, b, e[0]))
+                continue
+            work.extend(s_ for s_ in fn.succ(b) if not fn.blocks[s_]["cleanup"])
+    return out
+
+
 def erriter_rules(facts, rep):
     """a `Result` is also an iterator of zero or one items: handing I/O results to `flat_map` / `flatten` / `filter_map(Result::ok)`,
     or turning one into an `Option` with `.ok()` / `.err()`, makes the error items vanish without a trace (a failed read of a
@@ -168,6 +233,27 @@ def dropres_rules(facts, rep, reach):
                             kinds.append("passed")
             w = where(f, t["span"])
             handled = [k for k in kinds if k in ("returned", "matched", "wrapped", "passed", "stored", "unwrapped")]
+            # flow-sensitive side condition: the value is looked at before the local that holds it is assigned again or dropped
+            sites = [(L, bi)]
+            for l2 in seen:
+                if l2 == L:
+                    continue
+                for b2, blk in enumerate(f.blocks):
+                    if blk["cleanup"]:
+                        continue
+                    for s2 in blk["stmts"]:
+                        if s2["k"] == "assign" and s2["place"]["l"] == l2 and not s2["place"]["p"] and s2["rv"]["k"] == "use" and \
+                                s2["rv"]["op"]["k"] in ("copy", "move") and s2["rv"]["op"]["place"]["l"] in seen and not s2["rv"]["op"]["place"]["p"]:
+                            sites.append((l2, b2))
+            lost = overwritten_results(f, seen, sites) if handled else []     # (a result nobody ever looks at is judged below)
+            if lost:
+                l_, bd_, bl_, how_ = lost[0]
+                ok = False
+                rep.violation(rule, "%s|%s|overwritten" % (f.path, nm), w,
+                              "the Result of %s is stored in `%s` and that variable is %s before anything examined it (bb%d -> bb%d): "
+                              "a failure of all but the last such call is lost and the caller sees success" % (
+                                  cal, f.local_name(l_) or "_%d" % l_, "assigned again" if how_ == "def" else "dropped", bd_, bl_))
+                continue
             if handled:
                 rep.ok(rule, "%s|%s@bb" % (f.path, nm), w, "result of %s is %s" % (nm, "/".join(sorted(set(handled)))), trivial=True)
                 continue
@@ -527,6 +613,14 @@ def poison_rules(facts, rep):
                     fp = [p.get("n") for p in s2["place"]["p"] if p["k"] == "field"]
                     if fp == ["inner"] or (not fp and [p["k"] for p in s2["place"]["p"]] == ["deref"]):
                         restore.add(b2)
+            # a failure leaves the writer closed: the taken-out compressor / sink is never put back in an error arm (an encoder whose
+            # final flush failed is not reusable -- bzip2 panics on the next write, an encrypting writer re-emits its buffer)
+            rets_ = {b_ for b_ in range(len(f.blocks)) if f.term(b_) and f.term(b_)["k"] == "return" and not f.blocks[b_]["cleanup"]}
+            committed = lambda b_: b_ in err or not (f.reach_from_inclusive(b_, avoid=set(err)) & rets_)      # noqa: E731 -- every way out of b_ is an error
+            back = sorted(b2 for b2 in restore if b2 in f.reach_from(bi) and committed(b2))
+            ok &= rep.check(not back, rule, "%s|failure-leaves-closed" % f.path, where(f, t["span"]), "no path that ends in an error puts the taken-out writer back",
+                            "%s puts the writer it took out back on a path that only leads to an error return (bb%s): the caller is told the operation failed "
+                            "and is left with a half-finished compressor it can keep writing to" % (f.path, back[:2]))
             # success returns reachable while still closed
             seen = set()
             work = [bi]
